@@ -9,7 +9,7 @@ def has_strings(t):
     """does the term contain a string/sequence-sorted subterm?"""
     tid = t.get_id()
     if tid in _STR_CACHE:
-        return _STR_CACHE[tid]
+        return _STR_CACHE[tid][0]
     seen = set()
     stack = [t]
     found = False
@@ -27,7 +27,7 @@ def has_strings(t):
             stack.extend(x.children())
         elif z3.is_quantifier(x):
             stack.append(x.body())
-    _STR_CACHE[tid] = found
+    _STR_CACHE[tid] = (found, t)      # keep the term alive: z3 reuses ids of collected ASTs
     return found
 
 
@@ -112,7 +112,7 @@ class Path:
             return False
         cid = c.get_id()
         if cid in self.known:
-            return self.known[cid]
+            return self.known[cid][0]
         if self.idx < len(self.prefix):
             d = self.prefix[self.idx]
         else:
@@ -131,9 +131,9 @@ class Path:
                 raise PathEnd()
         self.taken.append(d)
         self.idx += 1
-        self.known[cid] = d
+        self.known[cid] = (d, c)     # pin the term: ids of collected ASTs are reused
         nc = z3.simplify(z3.Not(c))
-        self.known[nc.get_id()] = not d
+        self.known[nc.get_id()] = (not d, nc)
         self.assume(c if d else nc)
         return d
 
